@@ -2561,7 +2561,9 @@ class Env(cabc.MutableMapping):
             and not self._overlay_stack
             and not self._d._local
         ):
-            return self._detyped
+            # callers edit what they get (GIT_OPTIONAL_LOCKS, HGRCPATH, SHLVL,
+            # PROMPT): never hand out the cached mapping itself
+            return dict(self._detyped)
         ctx = {}
         items = dict(self._d)
         # Apply overlay values on top (most recent overlay wins)
@@ -2587,7 +2589,7 @@ class Env(cabc.MutableMapping):
                 continue
             ctx[key] = deval
         if not self._overlay_stack and not self._d._local:
-            self._detyped = ctx
+            self._detyped = dict(ctx)
         return ctx
 
     def detype_all(self):
